@@ -67,6 +67,36 @@ Definition transpose_sq (S : mat) : mat := map (fun j => col S j) (seq 0 (length
 End Generic.
 
 (* ------------------------------------------------------------------------------------------- *)
+(* get_action, choice of the arm:
+     action = np.argmax(action_values)                                   (no mask)
+     action = np.argmax(np.ma.array(action_values, mask = 1 - action_mask))
+   numpy fills masked entries with the smallest value and returns the FIRST index of the maximum;
+   with every arm masked it returns 0. [legal] is the mask (all true when no mask is given). *)
+Section Argmax.
+Context {T : Type}.
+Variable ltb : T -> T -> bool.      (* strict order on action values *)
+
+Fixpoint argmax_from (i : nat) (best : option (nat * T)) (vals : list T) (legal : list bool) : option (nat * T) :=
+  match vals, legal with
+  | v :: vs, l :: ls =>
+      let best' := if l then
+                     match best with
+                     | None => Some (i, v)
+                     | Some (_, b) => if ltb b v then Some (i, v) else best
+                     end
+                   else best in
+      argmax_from (S i) best' vs ls
+  | _, _ => best
+  end.
+
+Definition masked_argmax (vals : list T) (legal : list bool) : nat :=
+  match argmax_from 0 None vals legal with Some (i, _) => i | None => 0 end.
+End Argmax.
+
+Definition Qltb (a b : Q) : bool := negb (Qle_bool b a).
+Definition Qmasked_argmax := @masked_argmax Q Qltb.
+
+(* ------------------------------------------------------------------------------------------- *)
 (* Mutations._reinit_bandit_grads: index surgery on sigma_inv when the output layer is resized.  *)
 (* A layer is the list of its trainable named parameters (key, numel) in named_parameters order. *)
 Definition layer := list (nat * nat).
